@@ -15,7 +15,7 @@ open Py Model Model.Rmsd Spec.Rmsd Proofs.Rmsd Proofs.Msd Proofs.Contacts Proofs
 theorem zone_line_format (chain : Str) (num : Int) :
     Gen.zone_line chain num =
       .ok ("zone ".toList ++ chain ++ intStr num ++ ['-'] ++ chain ++ intStr num ++ ['\n']) := by
-  simp [Gen.zone_line, pure, Except.pure]
+  rw [Proofs.Zone.zone_line_eq]; simp
 
 /-- **Zone lines round-trip.**  For every one-character chain identifier other than `-` and whitespace and every
     residue number — zero and negative ones included — the line the library writes is read back, by the reader every
